@@ -10,6 +10,7 @@ package main
 //   (c) outbound: two tasks sending concurrently through Send and SendRaw.
 
 import (
+	"strconv"
 	"bytes"
 	"context"
 	"fmt"
@@ -854,7 +855,86 @@ func c18Pool() [][]byte {
 	return out
 }
 
+// C18, session part: the session extracts MsgType and MsgSeqNum from the raw bytes of every inbound
+// message (sequence tracking, SequenceReset exemption).  With the optional SequenceReset builder
+// configured, a logged-on session receives application messages that carry look-alikes of those two
+// fields - a longer tag ending in 35 / 34 with a plausible value, the text inside a value, at the
+// end of a value - one or two per message; after each message the stored inbound number must be the
+// message's own MsgSeqNum.
+func runC18sess(R *vlib.Out) {
+	decoys := []string{"135=4", "135=5", "1035=4", "58=see 35=4", "58=35=4", "58=x35=4", "435=4", "1034=77", "5034=1", "58=34=77", "58=was 34=77", "134=", "58=\x0234=5"}
+	var sets [][]string
+	for i, a := range decoys {
+		sets = append(sets, []string{a})
+		for _, b := range decoys[i+1:] {
+			if a[:strings.IndexByte(a, '=')] != b[:strings.IndexByte(b, '=')] {
+				sets = append(sets, []string{a, b})
+			}
+		}
+	}
+	unit := 0
+	for _, role := range []string{"acc", "ini"} {
+		for _, set := range sets {
+			unit++
+			if !vlib.Mine(unit) {
+				continue
+			}
+			if vlib.Expired() {
+				R.Cap("deadline")
+				return
+			}
+			R.Eval()
+			set, role := set, role
+			sig, d, steps := execBody(func() (string, string) {
+				w := newWorld(wcfg{Role: role, Buf: 10, HbMin: 5, HbMax: 30, HbInt: 30, SeqReset: true})
+				w.logonOK(30)
+				if !w.s.IsLogged() {
+					return "setup:not-logged", ""
+				}
+				for k := 0; k < 2; k++ {
+					m := w.msg("D", append([]string{"11=o" + strconv.Itoa(k)}, set...)...)
+					want := seqOf(m)
+					w.in(m)
+					got, _ := w.st.GetCurrSeqNum(fixStorageID(true))
+					if got != want {
+						return "sess:inbound-number-not-recorded", fmt.Sprintf("after %s the stored inbound number is %d, the message carried %d", show(m), got, want)
+					}
+				}
+				// a genuine SequenceReset is the one message whose number is not recorded
+				m := w.msg("4", "36=50")
+				before, _ := w.st.GetCurrSeqNum(fixStorageID(true))
+				w.in(m)
+				if got, _ := w.st.GetCurrSeqNum(fixStorageID(true)); got != before {
+					return "sess:sequence-reset-number-recorded", fmt.Sprintf("stored inbound number %d -> %d on %s", before, got, show(m))
+				}
+				return "", ""
+			})
+			R.Transitions += int64(steps)
+			key := fmt.Sprintf("sess/%s/%v", role, set)
+			R.ClassU(key)
+			R.State(key)
+			R.Outcome("sess: numbers recorded")
+			if sig != "" {
+				R.Violate(sig, key+": "+d, map[string]any{"scenario": "c18sess", "role": role, "set": set})
+			}
+		}
+	}
+}
+
 func runC18conn(R *vlib.Out) {
+	if *vlib.ReplayPath != "" {
+		var probe struct {
+			Scenario string   `json:"scenario"`
+			Role     string   `json:"role"`
+			Set      []string `json:"set"`
+		}
+		vlib.LoadReplay(&probe)
+		if probe.Scenario == "c18sess" {
+			runC18sess(R) // (small: the whole part is re-run)
+			return
+		}
+	}
+	runC18sess(R)
 	pool := c18Pool()
 	unit := 0
 	for _, role := range []string{"ini", "acc"} {
